@@ -73,6 +73,16 @@ void spec_mac(uint8_t tag[16], const uint8_t *in, size_t inlen, const uint8_t k[
 /* ---- RFC 2104 HMAC over ASCON-HASH/HASHA, block 64 ---- */
 void spec_hmac(int family, uint8_t out[32], const uint8_t *key, size_t keylen, const uint8_t *in, size_t inlen);
 
+/* ---- RFC 5869 HKDF over spec_hmac; RFC 8018 PBKDF2 over the documented cXOF PRF / over HMAC ---- */
+#define SPEC_HKDF_MAX_INFO 64
+#define SPEC_PBKDF2_MAX_SALT 64
+int spec_hkdf(int family, uint8_t *out, size_t outlen, const uint8_t *ikm, size_t ikmlen,
+              const uint8_t *salt, size_t saltlen, const uint8_t *info, size_t infolen);
+void spec_pbkdf2(uint8_t *out, size_t outlen, const uint8_t *pw, size_t pwlen,
+                 const uint8_t *salt, size_t saltlen, unsigned long count);
+void spec_pbkdf2_hmac(uint8_t *out, size_t outlen, const uint8_t *pw, size_t pwlen,
+                      const uint8_t *salt, size_t saltlen, unsigned long count);
+
 /* ---- KMAC / KDF : cXOF("KMAC"|"KDF", custom, outlen) over key || message ---- */
 void spec_kmac(int family, uint8_t *out, size_t outlen, const uint8_t *key, size_t keylen,
                const uint8_t *in, size_t inlen, const uint8_t *custom, size_t customlen, int init_precomputed);
